@@ -236,6 +236,14 @@ func ZZ_C18_readonly() {
 		b2.Delete(k2)
 	}
 	del2 := b2.index[0].keyType == keyTypeDel
+	if vpChoose(2) == 1 {
+		// the second batch is in a newer journal (the state after a close
+		// with a memdb flush still pending: two live journals)
+		jw.Close()
+		w.Close()
+		w, _ = mem.Create(storage.FileDesc{Type: storage.TypeJournal, Num: 4})
+		jw = journal.NewWriter(w)
+	}
 	wr, _ = jw.Next()
 	writeBatchesWithHeader(wr, []*Batch{b2}, 2)
 	jw.Close()
